@@ -346,7 +346,8 @@ func (s *LSpec) World(name string) *World {
 	return w
 }
 
-var dirPool = []string{"a", "b", "svc/conv", "my-cool_pkg", "deep/er/pkg", "x1"}
+// two entries share their base name (svc/conv, api/conv): packages of equal name in one run
+var dirPool = []string{"a", "b", "svc/conv", "api/conv", "my-cool_pkg", "deep/er/pkg", "x1"}
 
 // DrawLayout draws a layout spec. nConv converters over up to 3 packages.
 func DrawLayout(rng *rand.Rand, nConv int, opts LayoutOpts) *LSpec {
@@ -367,6 +368,12 @@ func DrawLayout(rng *rand.Rand, nConv int, opts LayoutOpts) *LSpec {
 	dirs := append([]string(nil), dirPool...)
 	rng.Shuffle(len(dirs), func(i, j int) { dirs[i], dirs[j] = dirs[j], dirs[i] })
 	dirs = dirs[:nd]
+	if rng.IntN(3) == 0 {
+		dirs = []string{"api/conv", "svc/conv"}
+		if rng.IntN(2) == 0 {
+			dirs = append(dirs, "a")
+		}
+	}
 	sort.Strings(dirs)
 	for _, d := range dirs {
 		s.PkgNames[d] = normPkgName(d)
@@ -502,7 +509,7 @@ func DrawLayout(rng *rand.Rand, nConv int, opts LayoutOpts) *LSpec {
 		s.GuardedUser = true
 	}
 	if rng.IntN(4) == 0 {
-		s.PlainPkgs = []string{"plainpkg"}
+		s.PlainPkgs = []string{[]string{"plainpkg", "zz/plainpkg", "aa_plain"}[rng.IntN(3)]}
 	}
 	return s
 }
